@@ -108,6 +108,13 @@ def run(repo, chk):
         kept = C(span, dyn, IV(0, span)).simplify()
         chk.expect(err is not None and not isinstance(kept, IV), 'C14.F2', f'{cls} by constant zero',
                    'constant/0 is a compile error (it would fault at run time); x/0 with run-time x must be left to the run-time check', OPERATORS)
+        # ... and a division by a run-time value keeps its division whatever the dividend is (0 / d and 0 % d fault when d is 0)
+        bad = None
+        for c in (0, 1, -1, 5, 256):
+            r = C(span, IV(c, span), dyn).simplify()
+            if not isinstance(r, C) or getattr(r, 'right', None) is not dyn:
+                bad = bad or f'{c} {cls} <run-time value> is folded to {type(r).__name__}({getattr(r, "data", "")}): the division_by_zero check disappears'
+        chk.expect(bad is None, 'C14.F2', f'{cls} by a run-time value', bad or 'kept for every constant dividend', OPERATORS)
 
     _effects_kept(chk, ns, span)
     _generator_constant_arms(repo, chk)
@@ -265,8 +272,7 @@ def _typed_tree_effects(repo, chk):
     n = 0
     bad = []
     for stmt, lo, hi in cat:
-        text = prelude + 'empty @is_you() { ' + stmt + ' }'
-        res = typecheck(fe, text)
+        res = typecheck(fe, 'empty @is_you() { ' + stmt + ' }', prelude=prelude)
         n += 1
         if isinstance(res, tuple):
             bad.append((stmt, f'the catalogue program does not typecheck: {res[1]}: {res[2]}'))
